@@ -160,6 +160,7 @@ func newV2(prefix string, ct *Controllers) (cg Cgroup, err error) {
 		current = current + "/" + e
 		// try mkdir if not exists
 		if _, err := os.Stat(filepath.Join(basePath, current)); os.IsNotExist(err) {
+			verifPoint("cgroup.newv2.stat-mkdir")
 			if err := os.Mkdir(filepath.Join(basePath, current), dirPerm); err != nil {
 				return nil, err
 			}
